@@ -111,6 +111,14 @@ Theorem C19_offset_apply_is_line_apply : forall input es, fmt_diffs input = Ok e
 Proof. intros input es Ee Hw. apply (lsp_apply_lines input es Hw (fmt_diffs_shape input es Ee)). Qed.
 Print Assumptions C19_offset_apply_is_line_apply.
 
+(* the shape of every edit FmtDiffs returns, for every input (accepted or not): no edit starts beyond
+   the last line of the document, and every replacement text is empty or ends with a newline (so
+   "the lines a text stands for", text_lines, drops nothing) *)
+Theorem C19_edit_texts_wellformed : forall input es, fmt_diffs input = Ok es ->
+  Forall (fun e => e_from e < nlines input /\ (e_text e = [] \/ exists x, e_text e = x ++ [10%N])) es.
+Proof. exact fmt_diffs_shape. Qed.
+Print Assumptions C19_edit_texts_wellformed.
+
 (* non-vacuity: leading blank lines, a brace-less header with a trailing comment (finding 10),
    a white-space-only gap line, "} // c" (two fragments on one line) *)
 Example C19_example :
